@@ -592,6 +592,22 @@ def stream_cdedb_read(seed, tier, workdir, stream):
                 nk = r.choice(["+", "0", "00"]) + k
                 if nk not in doc[coll]:
                     doc[coll][nk] = doc[coll].pop(k)
+        elif i % 20 == 2:
+            # the SAME id under two spellings, both present ("7" and "07"): a second course / registration
+            # record with other contents (the id → index map keeps the last one in sorted order)
+            coll = r.choice(["courses", "courses", "registrations"])
+            k = r.choice(list(doc[coll].keys()))
+            nk = r.choice(["0", "00", "+"]) + k
+            if nk not in doc[coll]:
+                twin = copy.deepcopy(doc[coll][k])
+                if coll == "courses":
+                    twin["shortname"] = "Zwilling"; twin["nr"] = r.choice(NRS)
+                    if r.random() < 0.5:
+                        twin["max_size"] = r.choice([1, 2, 5]); twin["min_size"] = 0
+                else:
+                    twin["persona"]["given_names"] = "Doppel"
+                doc[coll][nk] = twin
+            what = "dial:same-id-two-spellings"
         elif i % 20 == 10:
             # timestamps at and beyond the limits of their fields (model and code must agree on acceptance)
             doc["timestamp"] = gen_timestamp(r)
